@@ -51,9 +51,15 @@ pub fn tree_bounds(tier: Tier, rng: &mut Rng) -> TreeBounds {
 
 pub fn gen_doc(rng: &mut Rng, tier: Tier, o: &DocOpts) -> Doc {
     let sb = if o.full_specs { SpecBounds::FULL } else { SpecBounds::PLAIN };
-    let spec = gen::pick_spec(rng, &sb);
+    let mut spec = gen::pick_spec(rng, &sb);
     let tb = tree_bounds(tier, rng);
     let mut tree = gen::gen_tree(rng, &spec, &tb);
+    // one document in 300: a scale document (hundreds to thousands of siblings, or hundreds of nesting levels)
+    if rng.chance(1, 300) {
+        let (s, t, _kind) = gen::gen_scale_tree(rng, o.full_specs);
+        spec = s;
+        tree = t;
+    }
     let mut has_raw = false;
     if o.raw && rng.chance(1, 8) {
         let n = rng.urange(1, 3);
